@@ -95,3 +95,26 @@ def run_solve(year, request, input_path, keyboard, solution_path=None, prompt=Tr
     finally:
         builtins.input = orig
     return {"exc": exc, "stdout": out.getvalue()}
+
+
+def run_main(argv, keyboard=None):
+    """the real entry point with a command line: -> dict(exc, stdout)"""
+    import sys
+    import habutax
+    orig_argv, orig_input = sys.argv, builtins.input
+    sys.argv = ["habutax"] + list(argv)
+    if keyboard is not None:
+        builtins.input = keyboard
+    out = io.StringIO()
+    exc = ""
+    try:
+        with contextlib.redirect_stdout(out), contextlib.redirect_stderr(io.StringIO()):
+            try:
+                habutax.main()
+            except SystemExit as e:
+                exc = "" if e.code in (0, None) else "SystemExit"
+            except BaseException as e:     # noqa
+                exc = type(e).__name__
+    finally:
+        sys.argv, builtins.input = orig_argv, orig_input
+    return {"exc": exc, "stdout": out.getvalue()}
